@@ -18,6 +18,7 @@ from dataclasses import field, fields, is_dataclass, make_dataclass
 from decimal import Decimal
 from enum import Enum, IntEnum
 from typing import List, Optional, Union
+from xml.etree.ElementTree import QName
 
 from xsdata.formats.dataclass.context import XmlContext
 from xsdata.formats.dataclass.parsers import DictDecoder, JsonParser
@@ -41,9 +42,10 @@ DATETIMES = [XmlDateTime(2001, 1, 31, 12, 0, 0), XmlDateTime(1999, 12, 1, 23, 59
 DURATIONS = ["P1Y2M3DT4H5M6.7S", "-P1D", "PT0S", "P400D", "PT36H"]
 
 PRIM_KINDS = ["int", "float", "decimal", "str", "bool", "bytes16", "bytes64", "date", "datetime", "duration", "enum_s", "enum_i",
-              "enum_s", "enum_i", "enum_mi", "enum_ms", "u_int_float", "u_int_float", "u_int_str", "u_float_str"]
+              "enum_s", "enum_i", "enum_mi", "enum_ms", "enum_dec", "enum_qn", "enum_dur", "enum_date", "u_int_float", "u_int_float", "u_int_str", "u_float_str"]
 # kinds whose values are written without white space: they may be the items of a tokens list
-TOKEN_KINDS = {"int", "float", "decimal", "bool", "date", "datetime", "duration", "enum_s", "enum_i", "enum_mi", "enum_ms"}
+TOKEN_KINDS = {"int", "float", "decimal", "bool", "date", "datetime", "duration", "enum_s", "enum_i", "enum_mi", "enum_ms",
+               "enum_dec", "enum_qn", "enum_dur", "enum_date"}
 
 
 class Universe:
@@ -60,6 +62,16 @@ class Universe:
         setattr(self.module, "Level", self.level)
         setattr(self.module, "Rank", self.rank)
         setattr(self.module, "Tone", self.tone)
+        # enumerations whose member values are not JSON-native (xs:decimal / xs:QName / xs:duration / xs:date
+        # restrictions with enumeration facets): the encoder has to write the converter's text for the value
+        self.enums_nn = {
+            "enum_dec": Enum("Rate", {"LOW": Decimal("0.5"), "HIGH": Decimal("1.50"), "NEG": Decimal("-7")}, module=self.modname),
+            "enum_qn": Enum("Kind", {"A": QName("{urn:demo}a"), "B": QName("b")}, module=self.modname),
+            "enum_dur": Enum("Span", {"DAY": XmlDuration("P1D"), "WEEK": XmlDuration("P7D")}, module=self.modname),
+            "enum_date": Enum("Day", {"D1": XmlDate(2001, 1, 31), "D2": XmlDate(1999, 12, 1, 0)}, module=self.modname),
+        }
+        for en in self.enums_nn.values():
+            setattr(self.module, en.__name__, en)
         self.specs = {}  # class name -> [(field name, kind, shape)]
         self.classes = {}
         self._make(rng, "Leaf", [])
@@ -72,7 +84,7 @@ class Universe:
         return {
             "int": int, "float": float, "decimal": Decimal, "str": str, "bool": bool, "bytes16": bytes, "bytes64": bytes,
             "date": XmlDate, "datetime": XmlDateTime, "duration": XmlDuration, "enum_s": self.color, "enum_i": self.level,
-            "enum_mi": self.rank, "enum_ms": self.tone,
+            "enum_mi": self.rank, "enum_ms": self.tone, **self.enums_nn,
             "u_int_float": Union[int, float], "u_int_str": Union[int, str], "u_float_str": Union[float, str],
         }.get(kind) or self.classes[kind]
 
@@ -154,6 +166,8 @@ class Universe:
             return rng.choice(list(self.rank))
         if kind == "enum_ms":
             return rng.choice(list(self.tone))
+        if kind in self.enums_nn:
+            return rng.choice(list(self.enums_nn[kind]))
         if kind == "u_int_float":
             return rng.choice(INTS) if rng.random() < 0.4 else rng.choice(FLOATS)
         if kind == "u_int_str":
